@@ -1220,6 +1220,51 @@ func runC02() {
 				Want: "unoptimized: " + c02Show(r0), Got: "optimized: " + c02Show(r1), Replay: replayArg(ei)})
 		}
 	}
+	// an operand of a DECLARED integer type (type C03MyInt int; environment type of the C03 vertical): the rewrites
+	// that test `Kind() == reflect.Int` fire although the run-time helpers work on the dynamic type
+	for _, src := range []string{"M in [1, 2]", "M not in [1, 2]", "M in 1..3", "M not in 1..3", "N in [2]", "[M][0] in 1..3", "M == 1", "(B ? nil : 1) in [1, 2]", "(B ? 1 : nil) in 1..3",
+		"I in [1, 2, 3]", "I in 1..3", "I8 in 1..9", "S in [\"s\", \"t\"]"} {
+		for variant := 0; variant < 2; variant++ {
+			env := c03XEnv(variant)
+			var rs [2]coreRun
+			compiled := true
+			for k, opt := range []bool{false, true} {
+				func() {
+					defer func() {
+						if r := recover(); r != nil {
+							rs[k] = coreRun{err: fmt.Errorf("panic: %v", r)}
+						}
+					}()
+					p, err := expr.Compile(src, expr.Env(env), expr.Optimize(opt))
+					if err != nil {
+						compiled = false
+						return
+					}
+					rs[k] = runProgram(p, env)
+				}()
+			}
+			rep.Evaluations += 2
+			rep.hist("declared-integer-type campaign")
+			if !compiled {
+				continue
+			}
+			r0, r1 := rs[0], rs[1]
+			if (r0.err != nil && r1.err != nil) || (r0.err == nil && r1.err == nil && simEqual(r0.out, r1.out)) {
+				continue
+			}
+			key := "C02-mismatch"
+			switch {
+			case strings.HasPrefix(src, "M ") || strings.HasPrefix(src, "N ") || strings.HasPrefix(src, "[M]"):
+				key = "C02-named-int"
+			case strings.Contains(src, "nil") && r1.err != nil && strings.Contains(r1.err.Error(), "cannot use <nil> as index to map["):
+				key = "C02-in-array-nil-type"
+			case strings.Contains(src, "nil") && r1.err != nil && strings.Contains(r1.err.Error(), "invalid operation: <nil>"):
+				key = "C02-in-range-nil-type"
+			}
+			rep.fail(Failure{Key: key, What: "optimized and unoptimized programs disagree", Input: map[string]interface{}{"src": src, "env": "C03X", "variant": variant},
+				Want: "unoptimized: " + c02Show(r0), Got: "optimized: " + c02Show(r1)})
+		}
+	}
 	rep.Distinct = len(distinct)
 	rep.Rule = "one PRNG (seed). Families: membership `X in [..]` / `X not in [..]` for X of every static type the checker admits (12 numeric kinds, strings, bool, nil, interface{}, fields, nil-safe chains, indexing, calls) x int / string / mixed / folded / empty literal arrays, also inside closures; `X in a..b` / `not in` for the same X x literal, folded, descending, non-constant and window-sized ranges; constant ranges with bounds around -1,0,1, at 10^6-1, 10^6, 10^6+1 and at the int64 limits, under len/index/slice/map/==/calls; constant integer arithmetic (+ - * / % ** unary) to depth 4 with overflow and /0 %0, alone, in operand/argument/index/array/map/condition positions and as argument of an identity function of each of the 12 numeric kinds (literals retyped by the checker); string concatenation; literal arrays of ints / strings / mixed / nested under 37 contexts; ConstExpr calls (Add Inc Concat IsPos Fast Sum Boom Id Half G* with literal / folded / non-constant / failing arguments) under three ConstExpr sets; the type-directed random stream of the core harness. Each source is compiled untyped and typed with Optimize(false) and Optimize(true) through the replicated expr.Compile pipeline, both programs run on base/zero/boundary/random environments and compared with simEqual (kind+value, sequences element-wise, call logs); the tree before and after the real optimizer.Optimize is compared with the Coq model. distinct_nontrivial counts distinct (source, mode) on which optimizer.Optimize changed the tree or rejected it."
 	for i := 0; i < 8 && len(jobs) > 0; i++ {
